@@ -8,6 +8,8 @@ from rules import sec as r_sec
 from rules import data as r_data
 from rules import hdr_grammar as r_gr
 from rules import wr_layout as r_wl
+from rules import lf_pu as r_lp
+from rules import ex as r_ex
 
 PROPS = {}
 
@@ -352,3 +354,63 @@ prop("C11",
      technique="reader/writer format agreement + writer stage-order reachability + state-coverage of the written copy",
      level_text="Thin: only structural necessary conditions of the fixed point are decided; equality after k cycles on "
                 "arbitrary input is a runtime property and is not decided.")
+
+
+def _to_csv_typestate(ctx):
+    r_io.rule_typestate(ctx, only={"las.LASFile.to_csv"})
+
+
+prop("C14",
+     [r_lp.rule_views, r_lp.rule_route, r_lp.rule_rank, r_lp.rule_no_inplace, r_lp.rule_pu_fresh, r_si.rule_suffix_after_insert,
+      r_si.rule_session_only],
+     "List-model clauses: every view (keys, values, items, __getitem__, data, index, curvesdict, get_curve, df, "
+     "stack_curves) reads curve state through self.curves only, and no LASFile attribute other than `sections` is ever "
+     "assigned from curve data (attribute-store census with provenance; LF.VIEWS); the ten curve mutators change the list "
+     "only through the SectionItems API of self.curves, insert_curve_item type-checks, item assignment / update / delete "
+     "resolve names through keys() (exact session mnemonics, not the case-insensitive section lookup), and "
+     "replace_curve_item = delete(ix)+insert(ix) normalises a negative ix first (LF.ROUTE); rank inference in set_data: "
+     "no re-slicing lowers the rank of the data array before .shape[1] / data[:, i], truncation keeps the first "
+     "len(curves) columns (LF.RANK); no LASFile method other than read() writes into a curve's array, so arrays shared "
+     "between LASFiles or curves cannot be changed through another (effect paths ending in .data[*]; LF.NO-INPLACE); "
+     "every LASFile has its own default sections (PU.FRESH); set_data renumbers all suffixes after renaming, names default "
+     "to original mnemonics (SI.SUFFIX-AFTER-INSERT, SI.SESSION-ONLY). Not decided: model equivalence over histories.",
+     COMMON_ASSUMPTIONS, "DESIGN.md section 4, C14",
+     technique="attribute census + who-may-call routing rules + rank inference + effect paths on curve arrays",
+     level_text="Static guarantee of the structural clauses of the list model; equivalence with a model under edit histories is not executed.")
+
+prop("C10",
+     [r_lp.rule_pu_global, r_lp.rule_pu_fresh, r_lp.rule_pu_channel, r_hdrt.rule_no_state],
+     "Purity by effect summaries: none of the functions reachable from LASFile.__init__/read (resolved call graph incl. "
+     "property/__setattr__ hooks; closure size recorded) writes a module-level object, a class attribute or a mutable "
+     "default argument - an embedded impure function must be flagged on every run as positive control (PU.GLOBAL); "
+     "get_default_items returns only objects built inside the call and LASFile.__init__ takes its sections from one "
+     "unconditional call of it (PU.FRESH); the header-line parser keeps no state between lines (HDR.NO-STATE); the string "
+     "channel wraps the caller's text unmodified in StringIO (no splitlines/join round trip), in open_with_codecs every "
+     "assignment to `encoding` other than the BOM constant is control-dependent on `not encoding`, the BOM override is "
+     "under a BOM test, and encoding/errors reach the final io.open unchanged with universal newlines (PU.CHANNEL). Not "
+     "decided: equality across channels and codecs, BOM/chardet behaviour, non-ASCII preservation (runtime properties of "
+     "the I/O stack).",
+     COMMON_ASSUMPTIONS, "DESIGN.md section 4, C10",
+     technique="may-write effect summaries over the read closure (who-may-write module state) + control dependence of encoding overrides",
+     level_text="Static guarantee that a read cannot write shared state and that the channels differ only in how the "
+                "text is obtained; codec behaviour is not decided.")
+
+prop("C18",
+     [r_ex.rule_json_total, r_ex.rule_json_nan, r_ex.rule_isnan_guard, r_ex.rule_depth, r_ex.rule_csv, r_ex.rule_xlsx,
+      r_ex.rule_df, _to_csv_typestate],
+     "Export clauses: every CFG path through JSONEncoder.default returns a value, raises or delegates to the base class "
+     "(no fall-through to null) and numpy integers are converted (EX.JSON-TOTAL); curve samples and header values are "
+     "placed in the JSON document only through an unconditional comprehension whose element is the NaN->None map "
+     "(EX.JSON-NAN); all isnan() calls on samples in las.py, excel.py and writer.py are protected by try/except TypeError "
+     "(sibling agreement; EX.ISNAN-GUARD); depth_m and depth_ft branch on the same unit codes in the same order and their "
+     "folded coefficients satisfy m = ft x 0.3048 (EX.DEPTH-ALGEBRA); each key of DEPTH_UNITS selects its own branch of "
+     "_index_unit_contains (folded), every tabulated spelling - ASCII ones in any case - is recognised by the detection "
+     "test in read() and none as another unit, conflicts leave the unit undefined (EX.DEPTH-TABLE); to_csv writes the "
+     "mnemonic row under `mnemonics`, the unit row under `units` and units_loc=='line' independently of mnemonics, and one "
+     "record self.data[i, :] per depth step (EX.CSV), closing the file it opened on every path (IO.TYPESTATE); the Excel "
+     "header sheet lists ~Version, ~Well, ~Parameter, ~Curves with five fields per item and the Curves sheet writes '' "
+     "for NaN (EX.XLSX-SECTIONS); df() uses self.data with session mnemonics and the first curve as index (EX.DF). Not "
+     "decided: CSV/Excel/DataFrame cell equality, strictness of the JSON beyond NaN and dropped values.",
+     COMMON_ASSUMPTIONS, "DESIGN.md section 4, C18",
+     technique="all-paths return analysis + sanitiser-coverage census + truth-table folding of unit tables + control dependence of CSV rows",
+     level_text="Static guarantee of the structural clauses of each export path; equality of exported cells with the curves is not executed.")
